@@ -290,6 +290,12 @@ class Prover:
         def collect(nrm):
             out = []
             for f in list(self.facts) + list(self.ax):
+                if f[0] == 'ne' and len(f) == 3 and (f[1] == C(0) or f[2] == C(0)):
+                    # naturals: x != 0  =>  0 < x
+                    x = f[2] if f[1] == C(0) else f[1]
+                    x = nrm(x) if nrm else x
+                    out.append(self._raw_diff(x, C(0), -1))
+                    continue
                 if f[0] in ('le', 'lt', 'eq') and len(f) == 3:
                     a, b = (nrm(f[1]), nrm(f[2])) if nrm else (f[1], f[2])
                     if f[0] == 'le':
@@ -340,9 +346,22 @@ class Prover:
         if not negs:
             if c >= 0:
                 return True
-            # need positive atoms to make up for a negative constant: lower bounds
+            # need positive atoms to make up for a negative constant: lower bounds, or a known
+            # non-negative difference that shares a positive atom
             if depth >= self.max_depth:
                 return False
+            for fd, fc in self._fact_diffs():
+                if not any(fd.get(k, 0) > 0 for k in d):
+                    continue
+                nd = dict(d)
+                for x, xv in fd.items():
+                    nv = nd.get(x, 0) - xv
+                    if nv == 0:
+                        nd.pop(x, None)
+                    else:
+                        nd[x] = nv
+                if self.nonneg((nd, c - fc), depth + 1):
+                    return True
             for k, v in d.items():
                 for lb in self.lower_bounds(k):
                     nd = dict(d)
